@@ -7,6 +7,7 @@
 import SimVerif.Basic
 import SimVerif.HttpServer
 import SimVerif.HttpProxy
+import SimVerif.Socks
 
 namespace SimVerif.Drv
 
@@ -34,9 +35,43 @@ structure PxExt where
   ops  : List (Nat × String × PxCb × Nat) := []      -- handler id ↦ (object, callback, session bound)
   next : Nat := 0
 
+/-! ### SOCKS proxy (`k<i>` objects; functions in Drv/SocksSrv.lean) -/
+
+/-- one `socks_connection` object -/
+structure SocksConnSt where
+  srv  : String                 -- the server it belongs to
+  c    : Socks.Conn
+  dead : Bool := false          -- destroyed (last shared_ptr released)
+  deriving Repr
+
+/-- one `socks_server` object -/
+structure SocksSrvSt where
+  name     : String
+  node     : String
+  ver      : Int
+  flags    : Nat
+  bindPort : Nat := 2048              -- m_bind_port
+  cnt      : List Int := [0, 0, 0]    -- m_cmd_counts
+  cur      : Nat := 0                 -- m_conn (index into `conns`)
+  deriving Repr
+
+/-- what a handler id of the SOCKS range completes -/
+inductive SocksRef where
+  | accept (srv : String)                   -- socks_server::on_accept
+  | conn (ci : Nat) (op : Socks.POp)        -- a pending operation of connection `ci`
+  deriving Repr
+
+structure SocksSt where
+  srvs   : List SocksSrvSt := []
+  conns  : List SocksConnSt := []           -- index = connection id
+  ops    : List (Nat × SocksRef) := []      -- handler id ↦ what it completes
+  nextOp : Nat := 0                         -- handler ids are 3200000 + nextOp
+  deriving Repr
+
 structure ExtSt where
   unused : Unit := ()
   http : List (String × HttpInst) := []      -- HTTP test servers `w<k>` (Drv/HttpSrv.lean)
   proxy : PxExt := {}                         -- HTTP test proxies `x<k>` (Drv/ProxySrv.lean)
+  socks  : SocksSt := {}
 
 end SimVerif.Drv
